@@ -319,6 +319,49 @@ def h_debug_mix(E):
     return 'ok'
 
 
+def _class_tables():
+    """every class-level table of default names of every math grader class (MathMixin and all its subclasses, wherever they override them)"""
+    from mitxgraders.helpers.math_helpers import MathMixin
+    import mitxgraders  # noqa - makes sure all grader classes are imported
+    seen, todo, out = set(), [MathMixin], {}
+    while todo:
+        c = todo.pop()
+        if c in seen:
+            continue
+        seen.add(c)
+        todo += c.__subclasses__()
+        for attr in ('default_variables', 'default_functions', 'default_suffixes'):
+            if attr in c.__dict__:
+                out['%s.%s' % (c.__name__, attr)] = dict(c.__dict__[attr])
+    return out
+
+
+def h_default_removal(E):
+    """a default constant or function suppressed in ONE grader (user_constants={'pi': None} ...) stays available to every other grader of every class:
+    the class-level tables are never edited"""
+    import mitxgraders as m
+    before = _class_tables()
+    victim = E.choice('class_with_suppressed_default', ['FormulaGrader', 'NumericalGrader', 'MatrixGrader', 'SumGrader'])
+    what = E.choice('suppressed', ['pi', 'e', 'i'])
+    sg = dict(answers={'lower': '1', 'upper': '2', 'summand': 'n', 'summation_variable': 'n'})
+    kw = dict(user_constants={what: None})
+    if victim == 'SumGrader':
+        m.SumGrader(**sg, **kw)
+    else:
+        getattr(m, victim)(answers='1', **kw)
+    E.check('class-level-default-tables-untouched', _class_tables() == before)
+    for cls in ('FormulaGrader', 'NumericalGrader', 'MatrixGrader', 'SumGrader'):
+        expr = {'pi': 'pi', 'e': 'e', 'i': 'i^2'}[what]
+        if cls == 'SumGrader':
+            g = m.SumGrader(answers={'lower': '1', 'upper': '2', 'summand': expr + '*n', 'summation_variable': 'n'}, input_positions={'summand': 1})
+            r = g(None, 'n*' + expr)
+        else:
+            g = getattr(m, cls)(answers=expr)
+            r = g(None, expr + '+0')
+        E.check('other-graders-still-know-the-default', r['ok'] is True)
+    return 'ok'
+
+
 def h_scopes(E):
     """the variable/function scopes handed to the evaluator are not altered, whatever the outcome"""
     from mitxgraders.helpers.calc.expressions import evaluator
@@ -408,6 +451,7 @@ def harnesses(tier):
         add(h_author_config, 'author_config', dict(cls=cls), 'construction + repeated grading')
     for cls in ('string', 'formula', 'list', 'item-base'):
         add(h_registered_defaults, 'registered_defaults', dict(cls=cls), 'kwargs / dict / empty / overriding configuration', validate=False)
+    add(h_default_removal, 'default_removal', {}, '4 grader classes x 3 default constants suppressed with None, then one fresh grader of every class', validate=False)
     add(h_debug_mix, 'debug_mix', {}, 'parent debug x subgrader debug x prior solo call x 4 subgrader kinds, symbolic samples', validate=False)
     add(h_shared_parser, 'shared_parser', dict(length=2), 'all sequences of 2 failing or fine calls (7 kinds) on one grader, each followed by a fresh string on another grader', validate=False)
     add(h_scopes, 'scopes', {}, '9 formulas incl. failing ones, symbolic variable value')
